@@ -278,6 +278,9 @@ class MemTransport(asyncio.Transport):
             if sid is not None:
                 CTL.trace.append(("dispatch", sid, "step"))
         self._peer_reader.feed_data(bytes(data))
+        if getattr(self, "close_after_next_write", False):
+            self.close_after_next_write = False
+            self.close()
 
     def _lost(self, exc):
         if not self._closing:
@@ -455,6 +458,11 @@ class ScriptedSim(mosaik_api_v3.Simulator):
         if kind == "raise_key":
             raise KeyError(f"injected failure in {self.sid}")
         tr = getattr(self, "_mem_transport", None)
+        if kind == "close_after" and tr is not None:
+            # the simulator process dies *between* two requests: this request is still answered, the connection is
+            # closed right behind the reply
+            tr.close_after_next_write = True
+            return
         if kind == "close" and tr is not None:
             tr.close()
             raise asyncio.CancelledError()       # the simulator process is gone
